@@ -833,8 +833,22 @@ struct JReq {
 }
 #[derive(serde::Deserialize)]
 struct JRes {
+    /// must be a Resource OBJECT (or absent), not e.g. the bytes of another encoding
+    #[allow(dead_code)]
+    resource: Option<JResource>,
     #[serde(alias = "scopeLogs", alias = "scopeSpans", alias = "scopeMetrics")]
     scopes: Vec<JScope>,
+}
+#[derive(serde::Deserialize)]
+#[allow(dead_code)]
+struct JResource {
+    attributes: Option<Vec<JKeyValue>>,
+}
+#[derive(serde::Deserialize)]
+#[allow(dead_code)]
+struct JKeyValue {
+    key: String,
+    value: serde_json::Map<String, serde_json::Value>,
 }
 #[derive(serde::Deserialize)]
 struct JScope {
